@@ -238,6 +238,9 @@ class NativeEval(object):
         if name == "get": return _num(args[0][args[1]])
         if name == "sqrt": return _num(math.sqrt(args[0]))
         if name == "pow": return _num(float(args[0]) ** float(args[1]))
+        if name == "glob":
+            import importlib
+            return _num(getattr(importlib.import_module(args[0]), args[1]))
         if name in ("add_rtp", "add_rtn", "rn_add"): return _num(float(args[0]) + float(args[1])) if self.model == "F" else args[0] + args[1]
         if name in ("sub_rtp", "sub_rtn", "rn_sub"): return _num(float(args[0]) - float(args[1])) if self.model == "F" else args[0] - args[1]
         if name == "exact_add":
